@@ -151,10 +151,14 @@ fn split_members(ts: TokenStream) -> Result<Vec<Item>, String> {
 }
 
 pub fn split(ts: TokenStream) -> Result<Vec<Item>, String> {
-    let v: Vec<TokenTree> = ts.into_iter().collect();
     let mut out = Vec::new();
+    split_into(ts, &mut out)?;
+    Ok(out)
+}
+
+fn split_into(ts: TokenStream, out: &mut Vec<Item>) -> Result<(), String> {
+    let v: Vec<TokenTree> = ts.into_iter().collect();
     let mut i = 0;
-    let mut first = true;
     while i < v.len() {
         let start = i;
         i = skip_attrs(&v, i);
@@ -182,9 +186,6 @@ pub fn split(ts: TokenStream) -> Result<Vec<Item>, String> {
             let b = body_at.ok_or("top level: impl without body")?;
             let header = ts_string(&v[i..b]);
             if !has_for {
-                if !first {
-                    return Err("top level: a second inherent impl".into());
-                }
                 out.push(Item { kind: "inherent".into(), name: header.clone(), vis: String::new(), sig: header, body: String::new() });
                 if let TokenTree::Group(g) = &v[b] {
                     out.extend(split_members(g.stream())?);
@@ -204,12 +205,46 @@ pub fn split(ts: TokenStream) -> Result<Vec<Item>, String> {
             };
             out.push(Item { kind: "struct".into(), name: name.clone(), vis, sig: format!("struct {name}"), body: v[b].to_string() });
             i = b + 1;
+        } else if is_ident(&v[i], "use") {
+            // `use path;` — recorded (C16 cares about names brought into the user's module)
+            let mut k = i + 1;
+            while k < v.len() && !is_punct(&v[k], ';') {
+                k += 1;
+            }
+            if k >= v.len() {
+                return Err("top level: `use` without `;`".into());
+            }
+            out.push(Item { kind: "use".into(), name: ts_string(&v[i + 1..k]), vis, sig: ts_string(&v[i..k]), body: String::new() });
+            i = k + 1;
+        } else if is_ident(&v[i], "const") && matches!(v.get(i + 1), Some(TokenTree::Ident(id)) if id == "_") {
+            // `const _: () = { items };` — an anonymous scope holding further items
+            let mut k = i + 2;
+            let mut blk = None;
+            while k < v.len() {
+                if let TokenTree::Group(g) = &v[k] {
+                    if g.delimiter() == Delimiter::Brace {
+                        blk = Some(k);
+                        break;
+                    }
+                }
+                if is_punct(&v[k], ';') {
+                    break;
+                }
+                k += 1;
+            }
+            let b = blk.ok_or("top level: `const _` without a block")?;
+            if let TokenTree::Group(g) = &v[b] {
+                split_into(g.stream(), out)?;
+            }
+            i = b + 1;
+            if i < v.len() && is_punct(&v[i], ';') {
+                i += 1;
+            }
         } else {
             return Err(format!("top level: unexpected token `{}` at {}", v[i], start));
         }
-        first = false;
     }
-    Ok(out)
+    Ok(())
 }
 
 /// identifiers occurring in a token text (cheap tokenizer over the already-stringified tokens)
